@@ -1,1 +1,195 @@
-//! extension harness hx02
+//! extension harness hx02: descriptor readiness (compio-runtime fd: PollFd, AsyncFd).
+//!
+//! Common pieces of the replay and stress binaries: counting wakers, a socket pair whose readiness the
+//! harness controls from the outside (raw libc calls on the peer end and on a dup of our end), a runtime
+//! built on a chosen driver, and the bounded "settle" loop that lets the driver process what the kernel
+//! already knows (never wall-clock ordering: the loop ends on an observation or on a generous deadline).
+use std::{
+    os::fd::{AsRawFd, FromRawFd, OwnedFd, RawFd},
+    sync::{
+        Arc,
+        atomic::{AtomicU64, Ordering},
+    },
+    task::{Wake, Waker},
+    time::{Duration, Instant},
+};
+
+use compio_driver::{DriverType, ProactorBuilder};
+use compio_runtime::Runtime;
+
+pub struct CountWaker(pub AtomicU64);
+
+impl Wake for CountWaker {
+    fn wake(self: Arc<Self>) {
+        self.0.fetch_add(1, Ordering::SeqCst);
+    }
+
+    fn wake_by_ref(self: &Arc<Self>) {
+        self.0.fetch_add(1, Ordering::SeqCst);
+    }
+}
+
+pub fn count_waker() -> (Arc<CountWaker>, Waker) {
+    let c = Arc::new(CountWaker(AtomicU64::new(0)));
+    let w = Waker::from(c.clone());
+    (c, w)
+}
+
+pub fn driver_of(name: &str) -> DriverType {
+    if name == "poll" { DriverType::Poll } else { DriverType::IoUring }
+}
+
+/// Build a runtime on the requested driver; None if that driver is not available here.
+pub fn build_runtime(t: DriverType) -> Option<Runtime> {
+    let mut pb = ProactorBuilder::new();
+    pb.driver_type(t).capacity(64);
+    let rt = Runtime::builder().with_proactor(pb).build().ok()?;
+    if rt.driver_type() == t { Some(rt) } else { None }
+}
+
+/// Unit of the read direction: the peer writes UNIT tagged bytes at a time and every read uses a UNIT buffer.
+pub const UNIT: usize = 4;
+
+/// Byte `i` of a stream: position-coded so that loss, duplication and reordering are visible.
+pub fn stream_byte(tag: u8, i: u64) -> u8 {
+    tag ^ ((i as u8).wrapping_mul(31)).wrapping_add((i >> 8) as u8)
+}
+
+/// A connected AF_UNIX stream pair. `ours` is handed to compio, `peer` stays with the harness, `ours_raw` is a
+/// dup of our end that the harness uses to fill the send buffer behind compio's back.
+pub struct Pair {
+    pub ours: Option<OwnedFd>,
+    pub ours_dup: OwnedFd,
+    pub peer: OwnedFd,
+    /// bytes written into our end so far (by anyone): next position of the ours->peer stream
+    pub out_pos: u64,
+    /// bytes the peer has read from the ours->peer stream
+    pub peer_in_pos: u64,
+    /// bytes the peer wrote into the peer->ours stream
+    pub peer_out_pos: u64,
+}
+
+pub const TAG_IN: u8 = 0x5a; // peer -> ours
+pub const TAG_OUT: u8 = 0xa5; // ours -> peer
+
+fn set_nonblock(fd: RawFd) {
+    unsafe {
+        let fl = libc::fcntl(fd, libc::F_GETFL);
+        libc::fcntl(fd, libc::F_SETFL, fl | libc::O_NONBLOCK);
+    }
+}
+
+impl Pair {
+    pub fn new() -> std::io::Result<Self> {
+        let mut sv = [0i32; 2];
+        let r = unsafe { libc::socketpair(libc::AF_UNIX, libc::SOCK_STREAM | libc::SOCK_CLOEXEC, 0, sv.as_mut_ptr()) };
+        if r != 0 {
+            return Err(std::io::Error::last_os_error());
+        }
+        let ours = unsafe { OwnedFd::from_raw_fd(sv[0]) };
+        let peer = unsafe { OwnedFd::from_raw_fd(sv[1]) };
+        // small send buffer so that filling it is cheap
+        let sz: libc::c_int = 4096;
+        unsafe {
+            libc::setsockopt(
+                sv[0],
+                libc::SOL_SOCKET,
+                libc::SO_SNDBUF,
+                &sz as *const _ as *const libc::c_void,
+                std::mem::size_of::<libc::c_int>() as u32,
+            );
+        }
+        set_nonblock(sv[0]);
+        set_nonblock(sv[1]);
+        let d = unsafe { libc::fcntl(sv[0], libc::F_DUPFD_CLOEXEC, 0) };
+        if d < 0 {
+            return Err(std::io::Error::last_os_error());
+        }
+        let ours_dup = unsafe { OwnedFd::from_raw_fd(d) };
+        Ok(Self { ours: Some(ours), ours_dup, peer, out_pos: 0, peer_in_pos: 0, peer_out_pos: 0 })
+    }
+
+    /// Peer writes `n` bytes of the peer->ours stream. Returns false if the kernel refused (never expected).
+    pub fn peer_write(&mut self, n: usize) -> bool {
+        let buf: Vec<u8> = (0..n as u64).map(|k| stream_byte(TAG_IN, self.peer_out_pos + k)).collect();
+        let r = unsafe { libc::write(self.peer.as_raw_fd(), buf.as_ptr() as *const libc::c_void, n) };
+        if r as isize != n as isize {
+            return false;
+        }
+        self.peer_out_pos += n as u64;
+        true
+    }
+
+    /// Peer shuts down its write half: our end reads EOF after the queued bytes.
+    pub fn peer_shutdown(&mut self) {
+        unsafe { libc::shutdown(self.peer.as_raw_fd(), libc::SHUT_WR) };
+    }
+
+    /// Fill our send buffer until the kernel says EAGAIN (through the dup, not through compio).
+    /// The bytes continue the ours->peer stream. Returns the number of bytes written.
+    pub fn fill(&mut self) -> u64 {
+        let mut total = 0u64;
+        loop {
+            let n = 1024usize;
+            let buf: Vec<u8> = (0..n as u64).map(|k| stream_byte(TAG_OUT, self.out_pos + k)).collect();
+            let r = unsafe { libc::write(self.ours_dup.as_raw_fd(), buf.as_ptr() as *const libc::c_void, n) };
+            if r <= 0 {
+                break;
+            }
+            self.out_pos += r as u64;
+            total += r as u64;
+            if total > (8 << 20) {
+                break;
+            }
+        }
+        total
+    }
+
+    /// Peer reads everything that is queued; checks the ours->peer stream content. Err(position) on a wrong byte.
+    pub fn drain(&mut self) -> Result<u64, u64> {
+        let mut total = 0u64;
+        let mut buf = vec![0u8; 65536];
+        loop {
+            let r = unsafe { libc::read(self.peer.as_raw_fd(), buf.as_mut_ptr() as *mut libc::c_void, buf.len()) };
+            if r <= 0 {
+                break;
+            }
+            for k in 0..r as usize {
+                if buf[k] != stream_byte(TAG_OUT, self.peer_in_pos + k as u64) {
+                    return Err(self.peer_in_pos + k as u64);
+                }
+            }
+            self.peer_in_pos += r as u64;
+            total += r as u64;
+        }
+        Ok(total)
+    }
+
+    /// Level readiness of our end as the kernel reports it right now (poll(2) with zero timeout).
+    pub fn kernel_ready(&self) -> (bool, bool) {
+        let mut p = libc::pollfd { fd: self.ours_dup.as_raw_fd(), events: libc::POLLIN | libc::POLLOUT, revents: 0 };
+        unsafe { libc::poll(&mut p, 1, 0) };
+        (p.revents & (libc::POLLIN | libc::POLLHUP | libc::POLLRDHUP) != 0, p.revents & libc::POLLOUT != 0)
+    }
+}
+
+/// Let the driver process what is pending: `poll_with` until `done()` holds or `max` passes. Returns whether
+/// `done()` held. `min_rounds` zero-timeout rounds are always made (for "nothing must happen" expectations).
+pub fn settle(rt: &Runtime, min_rounds: u32, max: Duration, mut done: impl FnMut() -> bool) -> bool {
+    for _ in 0..min_rounds {
+        rt.poll_with(Some(Duration::ZERO));
+    }
+    if done() {
+        return true;
+    }
+    let t0 = Instant::now();
+    loop {
+        rt.poll_with(Some(Duration::from_millis(5)));
+        if done() {
+            return true;
+        }
+        if t0.elapsed() > max {
+            return false;
+        }
+    }
+}
